@@ -79,6 +79,10 @@ type Case struct {
 	// Last: the ad is the last thing in its message (no integer follows it), so whatever frame the
 	// serialiser's last attribute or type name leaves open is the one FinishMessage closes
 	Last bool `json:"last,omitempty"`
+	// Early: the sending Message object exists before the stream gets its key / has its crypto mode switched
+	// (a long-lived message object, or one made right after connecting): what counts is the stream's state when
+	// the ad is serialised
+	Early bool `json:"early,omitempty"`
 }
 
 var versions = []*message.HTCondorVersion{nil, message.NewHTCondorVersion(9, 8, 9), message.NewHTCondorVersion(9, 9, 0),
@@ -186,6 +190,10 @@ func runCase(c Case) res {
 	A := stream.NewStream(ca)
 	cb := kit.NewMemConn()
 	B := stream.NewStream(cb)
+	var msg *message.Message
+	if c.Early {
+		msg = message.NewMessageForStream(A)
+	}
 	if c.State != 0 {
 		_ = A.SetSymmetricKey(key)
 		_ = B.SetSymmetricKey(key)
@@ -194,7 +202,9 @@ func runCase(c Case) res {
 			B.SetCryptoMode(false)
 		}
 	}
-	msg := message.NewMessageForStream(A)
+	if msg == nil {
+		msg = message.NewMessageForStream(A)
+	}
 	if err := msg.PutClassAdWithOptions(kit.Bg, ad, cfg); err != nil {
 		r.viol = "sender refused the ad: " + err.Error()
 		return r
@@ -410,7 +420,7 @@ func genName(t *rapid.T) string {
 func genCase(t *rapid.T) Case {
 	c := Case{Public: rapid.IntRange(0, 6).Draw(t, "public"), Options: rapid.IntRange(0, 63).Draw(t, "options"),
 		Whitelist: rapid.IntRange(0, 3).Draw(t, "whitelist"), Refs: rapid.IntRange(0, 2).Draw(t, "refs") == 0, Version: rapid.IntRange(0, 4).Draw(t, "version"),
-		State: rapid.IntRange(0, 2).Draw(t, "state"), Salt: rapid.Uint32().Draw(t, "salt"), Last: rapid.Bool().Draw(t, "last")}
+		State: rapid.IntRange(0, 2).Draw(t, "state"), Salt: rapid.Uint32().Draw(t, "salt"), Last: rapid.Bool().Draw(t, "last"), Early: rapid.Bool().Draw(t, "early")}
 	if rapid.Bool().Draw(t, "forceOptIn") {
 		c.Options |= int(message.PutClassAdIncludePrivate)
 		c.Options &^= int(message.PutClassAdNoPrivate)
@@ -479,7 +489,7 @@ func TestC09Exhaustive(t *testing.T) {
 			for ver := 0; ver < 5; ver++ {
 				for state := 0; state < 3; state++ {
 					for wl := 0; wl < 4; wl++ {
-						c := Case{Public: 2, Private: []PAttr{{Name: name}}, Options: opt, Version: ver, State: state, Whitelist: wl, Refs: (opt+ver+wl)%2 == 1, Salt: uint32(opt*100 + ver), Last: (opt/2+ver+state+wl)%2 == 1}
+						c := Case{Public: 2, Private: []PAttr{{Name: name}}, Options: opt, Version: ver, State: state, Whitelist: wl, Refs: (opt+ver+wl)%2 == 1, Salt: uint32(opt*100 + ver), Last: (opt/2+ver+state+wl)%2 == 1, Early: (opt/4+ver+state)%2 == 1}
 						r := runCase(c)
 						record(c, r)
 						report(c, r)
